@@ -88,18 +88,17 @@ func wbRun(cw *hx.CaseWriter, sc wbScenario, kind string) {
 	}
 	multi, fault := false, false
 	calls := make([]string, len(res.Calls))
-	callsJ := make([][3]int, 0, len(res.Calls))
+	callsJ := make([][4]int, 0, len(res.Calls))
 	for ci, cl := range res.Calls {
-		ents := make([]string, len(cl.Entries))
-		for ei, e := range cl.Entries {
+		ups := make([]string, len(cl.Updates))
+		for ui, u := range cl.Updates {
+			e := u.Entry
 			idx := make([]uint64, len(e.Idx))
-			lens := make([]uint64, len(e.Lens))
 			for k := range e.Idx {
 				idx[k] = uint64(e.Idx[k])
 				if e.Idx[k] < 0 {
 					idx[k] = wbUnknown
 				}
-				lens[k] = uint64(e.Lens[k])
 			}
 			seg := hx.None()
 			if e.Seg >= 0 {
@@ -110,19 +109,23 @@ func wbRun(cw *hx.CaseWriter, sc wbScenario, kind string) {
 			if len(e.Idx) >= 2 {
 				multi = true
 			}
-			ents[ei] = hx.App("WriteBatch_corr.IE", hx.NList(idx), hx.NList(lens), seg, hx.N(dstID(e)))
+			ups[ui] = hx.Tuple(hx.N(uint64(u.Slot)), hx.App("WriteBatch_corr.IE", hx.NList(idx), seg, hx.N(dstID(e))))
 		}
 		if cl.Sent < cl.N {
 			fault = true
 		}
-		calls[ci] = hx.App("WriteBatch_corr.IC", hx.List(ents), hx.Z(int64(cl.Sent)), hx.N(uint64(cl.Errno)))
+		calls[ci] = hx.App("WriteBatch_corr.IC", hx.N(uint64(cl.Start)), hx.N(uint64(cl.N)), hx.List(ups), hx.Z(int64(cl.Sent)), hx.N(uint64(cl.Errno)))
 		if len(callsJ) < 40 {
-			callsJ = append(callsJ, [3]int{cl.N, cl.Sent, cl.Errno})
+			callsJ = append(callsJ, [4]int{cl.Start, cl.N, cl.Sent, cl.Errno})
 		}
 	}
-	script := make([]string, len(sc.script))
-	scriptJ := make([][2]int, len(sc.script))
-	for i, s := range sc.script {
+	used := sc.script // only the part of the script that was consumed matters
+	if len(res.Calls) < len(used) {
+		used = used[:len(res.Calls)]
+	}
+	script := make([]string, len(used))
+	scriptJ := make([][2]int, len(used))
+	for i, s := range used {
 		script[i] = hx.Tuple(hx.Z(int64(s.Sent)), hx.N(uint64(s.Errno)))
 		scriptJ[i] = [2]int{s.Sent, s.Errno}
 	}
@@ -133,12 +136,12 @@ func wbRun(cw *hx.CaseWriter, sc wbScenario, kind string) {
 	lit := hx.App("WriteBatch_corr.CBatch", hx.N(uint64(sc.cap)), hx.Bool(sc.gso), hx.N(uint64(sc.maxSegs)), hx.List(pk), hx.List(script),
 		hx.List(calls), hx.N(ret), hx.Bool(res.Err), hx.Bool(res.GsoAfter), hx.Bool(res.Panic != ""))
 	cw.Add(lit, kind, multi || fault, map[string]any{"op": "batch", "v4_socket": sc.isV4, "gso": sc.gso, "max_segs": sc.maxSegs, "cap": sc.cap,
-		"pkts_len_dst_ok": pkJ, "script_sent_errno": scriptJ, "calls_n_sent_errno_first40": callsJ, "ncalls": len(res.Calls),
+		"pkts_len_dst_ok": pkJ, "script_sent_errno": scriptJ, "calls_start_n_sent_errno_first40": callsJ, "ncalls": len(res.Calls),
 		"ret": res.Ret, "err": res.Err, "gso_after": res.GsoAfter, "panic": res.Panic})
 }
 
 func runWriteBatch(c *hx.Ctx) {
-	cw := c.NewCaseWriter("From NV Require Import corr.WriteBatch_corr.", "WriteBatch_corr.case", "WriteBatch_corr.check_case", 80)
+	cw := c.NewCaseWriter("From NV Require Import corr.WriteBatch_corr.", "WriteBatch_corr.case", "WriteBatch_corr.check_case", 100)
 
 	ok := func(n int) udp.VerifWBOutcome { return udp.VerifWBOutcome{Sent: n} }
 	full := ok(1000)
